@@ -12,7 +12,9 @@ LEVEL = 'exploration'
 RULE = ('1-3 generated interfaces, each 0-6 methods / signals / properties whose signatures are concatenations of 0-4 '
         'complete types from the full grammar (containers, nested structs, dict entries, unix fds), all four '
         '(readable, writeable) combinations and three change-notification modes, declared on a DBusObject subclass (or '
-        'split over base and subclass) exported at a generated path alone or with children (child nodes are the subject of C16). oracle: '
+        'split over base and subclass) exported at a generated path alone or with children (child nodes are the subject of C16); some interfaces are '
+        'defined step by step (addMethod / addSignal / addProperty) with the cached XML read in between, and some get '
+        'temporary members that are deleted again (delMethod / delSignal / delProperty, each kind last in turn). oracle: '
         'getInterfacesFromXML(generateIntrospectionXML(..), replace) yields for every declared interface one with the '
         'same name, methods (sigIn, sigOut, nargs, nret), signals (sig, nargs) and properties (sig, access); the XML '
         'parsed independently with ElementTree lists one <arg> per complete type (reference splitter) in order with the '
@@ -47,6 +49,17 @@ def _build(case):
                     iface.addSignal(part)
                 else:
                     iface.addProperty(part)
+            if case.get('incremental', 0) >= 2:
+                # members that come and go again: what is deleted must vanish from the (cached) XML as well; the kind
+                # deleted last varies, since each later mutation would refresh the cache for the earlier ones
+                iface.addMethod(I.Method('TmpM', 's', 's'))
+                iface.addSignal(I.Signal('TmpS', 'i'))
+                iface.addProperty(I.Property('TmpP', 'u'))
+                dels = [lambda: iface.delMethod('TmpM'), lambda: iface.delSignal('TmpS'), lambda: iface.delProperty('TmpP')]
+                k = case['incremental'] - 2
+                for f in dels[k + 1:] + dels[:k + 1]:
+                    iface.introspectionXml
+                    f()
             ifs.append(iface)
         else:
             ifs.append(I.DBusInterface(spec['name'], *parts, noRegister=True))
@@ -257,7 +270,7 @@ def gen_case(draw, tier):
         kids = sorted(set(kids))
     return {'ifaces': ifaces, 'split': draw(st.integers(0, len(ifaces))), 'path': path, 'children': kids,
             'replace': draw(st.booleans()), 'preregister': draw(st.integers(0, 2)) == 0,
-            'incremental': draw(st.integers(0, 3)) == 0}
+            'incremental': draw(st.sampled_from([0, 0, 0, 1, 1, 2, 3, 4]))}
 
 
 SUBCHECKS = [
